@@ -166,6 +166,8 @@ pub struct Inner {
     pub calls: u64,
     pub faults: BTreeMap<u64, Fault>,
     pub log: Vec<String>,
+    /// which handle (task tag) issued each logged call
+    pub log_tags: Vec<usize>,
     pub snapshots: Vec<Snapshot>,
     pub record: bool,
     /// read-only probes (`exists` / `head` / `list`): calls the modelled operations of the current
@@ -184,6 +186,11 @@ pub struct Inner {
     pub read_faults: Vec<ReadFaultRec>,
     /// interleaving control (C13): permits per task tag; `None` = ungated
     pub gate: Option<[u64; 2]>,
+    /// a runtime-friendly stall (c12x: the persistence actor blocked inside a store call while the
+    /// bridge keeps filling its mailbox): every call first takes a permit of this semaphore
+    pub hold: Option<Arc<tokio::sync::Semaphore>>,
+    /// every modelled call returns an error without effect while this is set (the call is counted)
+    pub fail_all: bool,
 }
 
 /// harness-side object store: in-memory, counting, fault-injecting, snapshotting, gateable
@@ -228,6 +235,7 @@ impl FaultStore {
                 calls: 0,
                 faults: faults.iter().cloned().collect(),
                 log: Vec::new(),
+                log_tags: Vec::new(),
                 snapshots: Vec::new(),
                 record: true,
                 probes: 0,
@@ -238,6 +246,8 @@ impl FaultStore {
                 previous: BTreeMap::new(),
                 read_faults: Vec::new(),
                 gate: None,
+                hold: None,
+                fail_all: false,
             })),
             tag: 0,
         }
@@ -273,8 +283,21 @@ impl FaultStore {
             };
             g.snapshots.push(snap);
             g.log.push(format!("{}:{}", idx, what));
+            g.log_tags.push(self.tag);
+        }
+        if g.fail_all {
+            return Some(Fault::Fail);
         }
         g.faults.get(&idx).cloned()
+    }
+    /// wait for a permit when the store is held
+    async fn held(&self) {
+        let h = self.inner.lock().unwrap().hold.clone();
+        if let Some(h) = h {
+            if let Ok(p) = h.acquire().await {
+                p.forget();
+            }
+        }
     }
 }
 
@@ -302,6 +325,7 @@ impl ObjectStore for FaultStore {
     fn put<'a>(&'a self, key: &'a str, data: &'a [u8]) -> Pin<Box<dyn Future<Output = IoResult<()>> + Send + 'a>> {
         Box::pin(async move {
             Gate { inner: self.inner.clone(), tag: self.tag }.await;
+            self.held().await;
             match self.begin(format!("put {}", key), Some((key, data))).filter(|f| !f.is_read()) {
                 None => {
                     let mut g = self.inner.lock().unwrap();
@@ -321,6 +345,7 @@ impl ObjectStore for FaultStore {
     fn get<'a>(&'a self, key: &'a str) -> Pin<Box<dyn Future<Output = IoResult<Vec<u8>>> + Send + 'a>> {
         Box::pin(async move {
             Gate { inner: self.inner.clone(), tag: self.tag }.await;
+            self.held().await;
             match self.begin(format!("get {}", key), None) {
                 None => self
                     .inner
@@ -353,6 +378,7 @@ impl ObjectStore for FaultStore {
     fn exists<'a>(&'a self, key: &'a str) -> Pin<Box<dyn Future<Output = IoResult<bool>> + Send + 'a>> {
         Box::pin(async move {
             Gate { inner: self.inner.clone(), tag: self.tag }.await;
+            self.held().await;
             if self.probe(format!("exists {}", key)) {
                 return Err(injected());
             }
@@ -362,6 +388,7 @@ impl ObjectStore for FaultStore {
     fn delete<'a>(&'a self, key: &'a str) -> Pin<Box<dyn Future<Output = IoResult<()>> + Send + 'a>> {
         Box::pin(async move {
             Gate { inner: self.inner.clone(), tag: self.tag }.await;
+            self.held().await;
             match self.begin(format!("delete {}", key), None).filter(|f| !f.is_read()) {
                 None => {
                     self.inner.lock().unwrap().objects.remove(key);
@@ -374,6 +401,7 @@ impl ObjectStore for FaultStore {
     fn list<'a>(&'a self, prefix: &'a str, _t: Option<&'a str>) -> Pin<Box<dyn Future<Output = IoResult<ListResult>> + Send + 'a>> {
         Box::pin(async move {
             Gate { inner: self.inner.clone(), tag: self.tag }.await;
+            self.held().await;
             if self.probe(format!("list {}", prefix)) {
                 return Err(injected());
             }
@@ -390,6 +418,7 @@ impl ObjectStore for FaultStore {
     fn rename<'a>(&'a self, from: &'a str, to: &'a str) -> Pin<Box<dyn Future<Output = IoResult<()>> + Send + 'a>> {
         Box::pin(async move {
             Gate { inner: self.inner.clone(), tag: self.tag }.await;
+            self.held().await;
             match self.begin(format!("rename {} {}", from, to), None).filter(|f| !f.is_read()) {
                 None => {
                     let mut g = self.inner.lock().unwrap();
@@ -410,6 +439,7 @@ impl ObjectStore for FaultStore {
     fn head<'a>(&'a self, key: &'a str) -> Pin<Box<dyn Future<Output = IoResult<ObjectMeta>> + Send + 'a>> {
         Box::pin(async move {
             Gate { inner: self.inner.clone(), tag: self.tag }.await;
+            self.held().await;
             if self.probe(format!("head {}", key)) {
                 return Err(injected());
             }
@@ -422,6 +452,41 @@ impl ObjectStore for FaultStore {
                 .ok_or_else(|| IoError::new(ErrorKind::NotFound, "Key not found"))
         })
     }
+}
+
+/// Runs one case so that a panic inside it — an `unwrap` / `expect` of this harness on a call into the
+/// code under test that "cannot fail", or a panic of the code under test itself — does not take the
+/// whole run down (which the check could only report as `no-failing-input-found`): the panic
+/// becomes a violation carrying the message and the op lines the case had produced so far, and
+/// the remaining cases still run.
+pub struct Guarded<F> {
+    inner: Pin<Box<F>>,
+}
+
+impl<F: Future> Future for Guarded<F> {
+    type Output = Result<F::Output, String>;
+    fn poll(mut self: Pin<&mut Self>, cx: &mut Context<'_>) -> Poll<Self::Output> {
+        let inner = &mut self.inner;
+        match std::panic::catch_unwind(std::panic::AssertUnwindSafe(|| inner.as_mut().poll(cx))) {
+            Ok(Poll::Pending) => Poll::Pending,
+            Ok(Poll::Ready(v)) => Poll::Ready(Ok(v)),
+            Err(pl) => Poll::Ready(Err(pl.downcast_ref::<String>().cloned().or_else(|| pl.downcast_ref::<&str>().map(|s| s.to_string())).unwrap_or_else(|| "panic".into()))),
+        }
+    }
+}
+
+pub fn guarded<F: Future>(f: F) -> Guarded<F> {
+    Guarded { inner: Box::pin(f) }
+}
+
+/// the verdict for a case that panicked: a violation of the property's check, never a silent skip
+pub fn report_panic(out: &mut Out, prop: &str, kind: &str, seed_info: &str, ops_before: usize, msg: &str) {
+    let (ops, imp) = out.lines();
+    let tail: Vec<String> = ops[ops_before.min(ops.len())..].iter().zip(imp[ops_before.min(imp.len())..].iter()).map(|(o, a)| format!("{} => {}", o, a)).collect();
+    let tail = if tail.len() > 60 { tail[tail.len() - 60..].to_vec() } else { tail };
+    out.violation(&format!("{}:case-panicked:{}", prop, kind),
+        &format!("a case of the harness panicked — a call into the code under test that the harness expects to succeed failed, or the code under test panicked: {}", msg),
+        json!({"case": seed_info, "panic": msg, "ops_of_the_case_so_far": tail}));
 }
 
 /// a `TimeSource` whose `now_millis() - ttl` is the cutoff the case wants
@@ -463,9 +528,14 @@ impl CCfg {
 }
 
 pub fn compactor(store: &FaultStore, c: &CCfg) -> Compactor<FaultStore, FixedTime> {
+    compactor_ms(store, c, 0)
+}
+
+/// … with the `max_segments` threshold `needs_compaction` / `compact_if_needed` read
+pub fn compactor_ms(store: &FaultStore, c: &CCfg, max_segments: u64) -> Compactor<FaultStore, FixedTime> {
     let cfg = CompactionConfig {
         target_segment_size: c.target as usize,
-        max_segments: 0,
+        max_segments: max_segments as usize,
         min_segments_to_compact: c.min as usize,
         max_segments_per_compaction: c.maxper as usize,
         tombstone_ttl: c.ttl,
@@ -504,6 +574,26 @@ pub fn show_rec(r: &Result<RecoveredState, RecoveryError>) -> String {
             };
             format!("ok chk={} deltas {} fold {}", chk, show_sorted_deltas(&r.deltas), show_upds(&sorted_map(&fold_recovered(r))))
         }
+    }
+}
+
+/// every field of the manifest object of an image
+pub fn show_manifest(img: &BTreeMap<String, Vec<u8>>) -> String {
+    match img.get(&format!("{}/manifest.json", PREFIX)) {
+        None => "man none".into(),
+        Some(b) => match serde_json::from_slice::<Manifest>(b) {
+            Err(_) => "man unparsable".into(),
+            Ok(m) => {
+                let chk = match &m.checkpoint {
+                    None => "-".to_string(),
+                    Some(c) => format!("{}:{}", c.timestamp_ms, c.last_segment_id),
+                };
+                let segs: Vec<String> = m.segments.iter().map(|s| format!("{}:{}:{}:{}:{}", s.id, s.record_count, s.size_bytes, s.min_timestamp, s.max_timestamp)).collect();
+                // the object key is derived from the id in the model: check it here
+                let keys_ok = m.segments.iter().all(|s| s.key == crate::c11::seg_key(s.id));
+                format!("man v={} rid={} next={} chk={} segs=[{}]{}", m.version, m.replica_id, m.next_segment_id, chk, segs.join(","), if keys_ok { "" } else { " KEY-NOT-DERIVED-FROM-ID" })
+            }
+        },
     }
 }
 
@@ -604,11 +694,13 @@ impl Proc {
         Proc { store, pers, rid, text, acked: Vec::new(), pending: Vec::new(), acked_at: vec![(0, 0)], segs: Vec::new(), lines: Vec::new(), faults: faults.to_vec(), header: None, committed: false, panicked: None }
     }
     /// a NEW process on a store image (the crash image of call `c` of `prev`'s workload)
-    pub async fn restart(prev: &Proc, c: u64, torn: bool, img: &BTreeMap<String, Vec<u8>>) -> Proc {
+    /// `Err`: the real code cannot even start on the image (a finding, not a harness failure)
+    pub async fn restart(prev: &Proc, c: u64, torn: bool, img: &BTreeMap<String, Vec<u8>>) -> Result<Proc, String> {
         let store = FaultStore::from_image(img);
-        let pers = StreamingPersistence::with_clock(Arc::new(store.clone()), PREFIX.to_string(), prev.rid, wb_config(), SimulatedClock::new(0))
-            .await
-            .expect("construct StreamingPersistence on the crash image");
+        let pers = match StreamingPersistence::with_clock(Arc::new(store.clone()), PREFIX.to_string(), prev.rid, wb_config(), SimulatedClock::new(0)).await {
+            Ok(p) => p,
+            Err(e) => return Err(e.to_string()),
+        };
         {
             let mut g = store.inner.lock().unwrap();
             g.calls = 0;
@@ -617,7 +709,7 @@ impl Proc {
             g.snapshots.clear();
         }
         let header = format!("RESTART {} {}", c, torn as u8);
-        Proc { store, pers, rid: prev.rid, text: format!("{}{};", prev.text, header), acked: Vec::new(), pending: Vec::new(), acked_at: vec![(0, 0)], segs: Vec::new(), lines: Vec::new(), faults: Vec::new(), header: Some(header), committed: false, panicked: None }
+        Ok(Proc { store, pers, rid: prev.rid, text: format!("{}{};", prev.text, header), acked: Vec::new(), pending: Vec::new(), acked_at: vec![(0, 0)], segs: Vec::new(), lines: Vec::new(), faults: Vec::new(), header: Some(header), committed: false, panicked: None })
     }
     pub fn log(&mut self, _out: &mut Out, op: String, ans: String) {
         self.text.push_str(&op);
@@ -758,6 +850,36 @@ impl Proc {
         };
         self.log(out, format!("COMPACT {} {} {} {} {} {}", c.target, c.min, c.maxper, c.now, c.ttl.as_millis(), sz), format!("{} calls={}", ans, calls));
         r
+    }
+    /// `Compactor::compact_if_needed` with the `max_segments` threshold (op line CIFNEEDED)
+    pub async fn compact_if_needed(&mut self, out: &mut Out, c: &CCfg, max_segments: u64) -> Result<Option<redis_sim::streaming::CompactionResult>, CompactionError> {
+        let mut comp = compactor_ms(&self.store, c, max_segments);
+        let r = comp.compact_if_needed().await;
+        let calls = self.store.calls();
+        let ids = |l: &Vec<redis_sim::streaming::SegmentInfo>| format!("[{}]", l.iter().map(|s| s.id.to_string()).collect::<Vec<_>>().join(","));
+        let (sz, ans) = match &r {
+            Ok(None) => (0, "nothing".to_string()),
+            // compact_if_needed maps NothingToCompact to Ok(None): an Err here is a difference
+            Err(CompactionError::NothingToCompact) => (0, "err-nothing-to-compact".to_string()),
+            Err(_) => (0, "err".to_string()),
+            Ok(Some(cr)) => match &cr.segment_created {
+                Some(s) => (s.size_bytes, format!("compacted {} -> {} n={} tombs={}", ids(&cr.segments_removed), s.id, s.record_count, cr.tombstones_removed)),
+                None => {
+                    if !cr.segments_removed.is_empty() && cr.deltas_before == 0 && cr.bytes_reclaimed == 0 && cr.tombstones_removed == 0 && cr.deltas_after == 0 {
+                        (0, format!("cleaned {}", ids(&cr.segments_removed)))
+                    } else {
+                        (0, format!("emptied {} tombs={}", ids(&cr.segments_removed), cr.tombstones_removed))
+                    }
+                }
+            },
+        };
+        self.log(out, format!("CIFNEEDED {} {} {} {} {} {} {}", c.target, c.min, c.maxper, c.now, c.ttl.as_millis(), max_segments, sz), format!("{} calls={}", ans, calls));
+        r
+    }
+    /// every field of the stored manifest (op line MAN)
+    pub fn man(&mut self, out: &mut Out) {
+        let a = show_manifest(&self.store.image());
+        self.log(out, "MAN".into(), a);
     }
     pub async fn rec(&mut self, out: &mut Out) -> Result<RecoveredState, RecoveryError> {
         let img = self.store.image();
@@ -995,7 +1117,14 @@ async fn restart_on_orphan_images(out: &mut Out, p: &Proc, ups: &[Upd]) {
             }
             let nack = p.acked_at.iter().filter(|(at, _)| *at <= c as u64).map(|(_, n)| *n).max().unwrap_or(0);
             let acked: Vec<Upd> = p.acked[..nack].to_vec();
-            let mut q = Proc::restart(p, c as u64, torn, &img).await;
+            let mut q = match Proc::restart(p, c as u64, torn, &img).await {
+                Ok(q) => q,
+                Err(e) => {
+                    out.violation("C12:restart-fails-on-crash-image", &format!("a new process cannot start on the store image a crash left behind: StreamingPersistence::with_clock fails: {}", e),
+                        json!({"workload": p.text, "crash_at_call": c, "torn_put": torn, "store_calls": p.store.inner.lock().unwrap().log.clone(), "objects": img.keys().collect::<Vec<_>>()}));
+                    continue;
+                }
+            };
             let cfg = CCfg { target: 1 << 20, min: 1, maxper: 5, now: 0, ttl: std::time::Duration::ZERO };
             let _ = q.compact(out, &cfg).await;
             q.rec(out).await.ok();
@@ -1049,6 +1178,8 @@ async fn case(out: &mut Out, rng: &mut Rng, corpus: Option<&str>) {
     let (script, faults): (Vec<u8>, Vec<(u64, Fault)>) = match corpus {
         // DESIGN §6.1: push 2, flush while the segment put fails
         Some("flush-put-fails") => (vec![0, 0, 1], vec![(1, Fault::Fail)]),
+        // a 256 KiB value under a 4 KiB key next to an empty value under the empty key, a torn put, a compaction
+        Some("huge-value") => (vec![0, 0, 1, 0, 1, 0, 1, 3], vec![(5, Fault::Partial)]),
         // 2 segments, compaction whose get of the first segment fails transiently
         Some("compact-get-fails") => (vec![0, 1, 0, 1, 2], vec![(9, Fault::Fail)]),
         // 3 segments, compaction (min 2) whose READ of segment 1 comes back mangled once (the
@@ -1114,6 +1245,12 @@ async fn case(out: &mut Out, rng: &mut Rng, corpus: Option<&str>) {
         let (d1, d2, rec2) = embedded_footer_pair();
         ups = vec![d1, d2, lww_upd("z", b"other", 9, 1, false)];
         cut_rec2 = Some(rec2);
+    }
+    if corpus == Some("huge-value") {
+        let big_key: String = std::iter::repeat("k\u{e9}y-").take(4096 / 5).collect();
+        ups[0] = lww_upd(&big_key, &vec![0xA5u8; 256 * 1024], 7, 1, false);
+        ups[1] = lww_upd("", b"", 8, 1, false);
+        out.count("pattern:huge-value-and-key");
     }
     let mut p = Proc::new(out, 1, &faults).await;
     let mut ui = 0;
@@ -1184,6 +1321,7 @@ async fn case(out: &mut Out, rng: &mut Rng, corpus: Option<&str>) {
         out.violation("C12:compaction:panic", &format!("Compactor::compact panicked: {}", msg), json!({"workload": p.text}));
     }
     p.rec(out).await.ok();
+    p.man(out);
     crash_points(out, &mut p, &ups).await;
     if corpus.is_some() || rng.chance(1, 4) {
         recover_under_read_faults(out, &p, rng).await;
@@ -1222,19 +1360,37 @@ pub fn run(a: &Args) {
     let mut rng = Rng::new(a.seed);
     let rt = tokio::runtime::Builder::new_current_thread().enable_all().build().unwrap();
     rt.block_on(async {
-        case(&mut out, &mut Rng::new(0xC12), Some("flush-put-fails")).await;
-        case(&mut out, &mut Rng::new(0xC12), Some("compact-get-fails")).await;
-        case(&mut out, &mut Rng::new(0xC12), Some("compact-read-flip")).await;
-        case(&mut out, &mut Rng::new(0xC12), Some("compact-read-trunc")).await;
-        case(&mut out, &mut Rng::new(0xC12), Some("compact-read-empty")).await;
-        case(&mut out, &mut Rng::new(0xC12), Some("flush-stale-manifest")).await;
-        case(&mut out, &mut Rng::new(0xC12), Some("recover-manifest-digit-flip")).await;
-        case(&mut out, &mut Rng::new(0xC12), Some("compact-read-cut-at-record-boundary")).await;
-        case(&mut out, &mut Rng::new(0xC12), Some("orphan-then-compaction")).await;
-        for _ in 0..a.n {
+        { let mark = out.n_ops(); if let Err(msg) = guarded(case(&mut out, &mut Rng::new(0xC12), Some("flush-put-fails"))).await { report_panic(&mut out, "C12", "corpus", "flush-put-fails", mark, &msg); } }
+        { let mark = out.n_ops(); if let Err(msg) = guarded(case(&mut out, &mut Rng::new(0xC12), Some("compact-get-fails"))).await { report_panic(&mut out, "C12", "corpus", "compact-get-fails", mark, &msg); } }
+        { let mark = out.n_ops(); if let Err(msg) = guarded(case(&mut out, &mut Rng::new(0xC12), Some("compact-read-flip"))).await { report_panic(&mut out, "C12", "corpus", "compact-read-flip", mark, &msg); } }
+        { let mark = out.n_ops(); if let Err(msg) = guarded(case(&mut out, &mut Rng::new(0xC12), Some("compact-read-trunc"))).await { report_panic(&mut out, "C12", "corpus", "compact-read-trunc", mark, &msg); } }
+        { let mark = out.n_ops(); if let Err(msg) = guarded(case(&mut out, &mut Rng::new(0xC12), Some("compact-read-empty"))).await { report_panic(&mut out, "C12", "corpus", "compact-read-empty", mark, &msg); } }
+        { let mark = out.n_ops(); if let Err(msg) = guarded(case(&mut out, &mut Rng::new(0xC12), Some("flush-stale-manifest"))).await { report_panic(&mut out, "C12", "corpus", "flush-stale-manifest", mark, &msg); } }
+        { let mark = out.n_ops(); if let Err(msg) = guarded(case(&mut out, &mut Rng::new(0xC12), Some("recover-manifest-digit-flip"))).await { report_panic(&mut out, "C12", "corpus", "recover-manifest-digit-flip", mark, &msg); } }
+        { let mark = out.n_ops(); if let Err(msg) = guarded(case(&mut out, &mut Rng::new(0xC12), Some("compact-read-cut-at-record-boundary"))).await { report_panic(&mut out, "C12", "corpus", "compact-read-cut-at-record-boundary", mark, &msg); } }
+        { let mark = out.n_ops(); if let Err(msg) = guarded(case(&mut out, &mut Rng::new(0xC12), Some("orphan-then-compaction"))).await { report_panic(&mut out, "C12", "corpus", "orphan-then-compaction", mark, &msg); } }
+        { let mark = out.n_ops(); if let Err(msg) = guarded(case(&mut out, &mut Rng::new(0xC12), Some("huge-value"))).await { report_panic(&mut out, "C12", "corpus", "huge-value", mark, &msg); } }
+        for i in 0..a.n {
             let mut r = rng.fork();
-            case(&mut out, &mut r, None).await;
+            let mark = out.n_ops();
+            if let Err(msg) = guarded(case(&mut out, &mut r, None)).await {
+                report_panic(&mut out, "C12", "workload", &format!("seed {} case {}", a.seed, i), mark, &msg);
+            }
+        }
+        // the layer above the writer: step functions of StreamingPersistence on a virtual clock, WriteBuffer
+        { let mark = out.n_ops(); if let Err(msg) = guarded(crate::c12x::run_all(&mut out, &mut rng, (a.n / 10 + 20).min(20_000), false)).await { report_panic(&mut out, "C12", "step-functions", &format!("seed {}", a.seed), mark, &msg); } }
+        // the concrete ObjectStore implementations (InMemory, LocalFs, FaultStore) under the model's store
+        { let mark = out.n_ops(); if let Err(msg) = guarded(crate::c12fs::run_all(&mut out, &mut rng, (a.n / 30 + 10).min(1_500))).await { report_panic(&mut out, "C12", "object-stores", &format!("seed {}", a.seed), mark, &msg); } }
+        for _ in 0..(a.n / 2000 + 2).min(40) {
+            let mut r = rng.fork();
+            { let mark = out.n_ops(); if let Err(msg) = guarded(crate::c12fs::localfs_pipeline(&mut out, &mut r)).await { report_panic(&mut out, "C12", "localfs-pipeline", &format!("seed {}", a.seed), mark, &msg); } }
         }
     });
+    // the real worker pipeline (sink, bridge, bounded mailbox, actor) under tokio's paused clock
+    let rt2 = tokio::runtime::Builder::new_current_thread().enable_all().start_paused(true).build().unwrap();
+    rt2.block_on(async {
+        { let mark = out.n_ops(); if let Err(msg) = guarded(crate::c12x::run_all(&mut out, &mut rng, (a.n / 20 + 10).min(4_000), true)).await { report_panic(&mut out, "C12", "worker-pipeline", &format!("seed {}", a.seed), mark, &msg); } }
+    });
+    crate::stream_api::report(&mut out, "C12");
     out.finish("case = one workload of 3..11 push/flush/compact operations on a real StreamingPersistence + Compactor over a counting, fault-injecting, snapshotting ObjectStore (0..2 faults {error without effect, error after a torn object} at generated call indices), followed by real recovery on the store image at EVERY call boundary (and inside every put); distinct by the op text incl. the fault placement; non-trivial iff some flush returned Ok and the run has a fault, an error or a compaction");
 }
